@@ -32,9 +32,11 @@ ASSUMPTIONS = [
 TRUSTED_BASE = ["dataclasses", "the lemma 'SpecEq is an equivalence relation' follows from A-EQ field-wise (reflexive/symmetric/transitive)"]
 
 
-def all_classes():
+def all_classes(include_handwritten=False):
+    """Classes whose equality is the generated / init-args-protocol one.  Classes that write __eq__ by hand (Rational, Polynomial)
+    are judged by the relational clauses only (bounded run own-equality); C17 includes them for the state-method obligations."""
     from contracts import fixtures_nodes as fxn
-    ks = [k for k in verify.node_class_table() if _has_fields(k)]
+    ks = [k for k in verify.node_class_table() if _has_fields(k) and (include_handwritten or not K.handwritten(k, "__eq__"))]
     return ks + fxn.DECORATED + fxn.LEGACY_INHERITING + fxn.LEGACY + [fxn.LegacyExtended]
 
 
@@ -243,7 +245,71 @@ def bounded(tier, seed, procs):
             b3.case(name, sample=name)
             if r != ("val", want):
                 b3.fail(Failure("special", f"case={name}", dict(kind="special", case=name), expected=str(want), actual=outcome.describe(r), functions=["primitives"]))
-    return [b1, b2, b3, b_class_histories(tier), b_post_init(tier)]
+    return [b1, b2, b3, b_class_histories(tier), b_post_init(tier), b_own_equality(tier)]
+
+
+def b_own_equality(tier):
+    """Node classes with a hand-written __eq__/__hash__ (Rational, Polynomial): the relational clauses of the statement."""
+    import pymbolic.primitives as p
+    from pymbolic.polynomial import Polynomial
+    from pymbolic.rational import Rational
+    b = BoundedRun("own-equality", rule="Rational and Polynomial instances together with the nodes and numbers they are built from: == is reflexive; for every ordered "
+                   "pair of expression objects == is symmetric, != its negation, equal => same class, equal hashes and interchangeable as dict/set key; transitive "
+                   "on all triples; objects rebuilt from the same arguments are equal", bound="~25 objects, all pairs and triples",
+                   functions=["Rational.__eq__", "Rational.__hash__", "Polynomial.__eq__", "Polynomial.__hash__"])
+    x, y = trees.X, trees.Y
+    mk = [lambda: x, lambda: y, lambda: p.Sum((x, 1)), lambda: p.Quotient(x, 2), lambda: Rational(x, 1), lambda: Rational(x), lambda: Rational(x, 2), lambda: Rational(y, 1),
+          lambda: Rational(3, 1), lambda: Rational(6, 2), lambda: Rational(p.Sum((x, 1)), 1), lambda: Rational(p.Sum((x, 1)), 2), lambda: Rational(x, y),
+          lambda: Polynomial(x, ((0, 1), (2, 3))), lambda: Polynomial(x, ((0, 1), (2, 3)), unit=1), lambda: Polynomial(x, ((1, 1),)), lambda: Polynomial(x),
+          lambda: Polynomial(y, ((1, 1),)), lambda: Polynomial(x, ((0, 1),)), lambda: Polynomial(x, ()), lambda: Polynomial(x, ((0, y),)), lambda: p.Power(x, 1)]
+    objs = []
+    for i, f in enumerate(mk):
+        r1, r2 = outcome.run(f), outcome.run(f)
+        b.case(("build", i))
+        if r1[0] != "val" or r2[0] != "val":
+            continue
+        objs.append((i, r1[1]))
+        h = outcome.run(lambda: (r1[1] == r2[1], hash(r1[1]) == hash(r2[1]), r1[1] == r1[1], r2[1] in {r1[1]: 1}))
+        if h != ("val", (True, True, True, True)):
+            b.fail(Failure("own-equality", f"what=own-equality mode=rebuilt obj={r1[1]!r}", dict(kind="own-eq", mode="rebuilt", index=i), expected="equal, same hash, key",
+                           actual=outcome.describe(h)[:200], functions=[f"{type(r1[1]).__name__}.__eq__"]))
+
+    def cause(u, v):
+        ku, kv = isinstance(u, Rational), isinstance(v, Rational)
+        return " cause=rational-coerces-operand" if ku != kv else ""
+    eqs = {}
+    for (i, u), (j, v) in itertools.permutations(objs, 2):
+        r = outcome.run(lambda: (u == v, v == u, u != v))
+        b.case(("pair", i, j), sample=dict(a=repr(u), b=repr(v)))
+        if r[0] != "val":
+            b.fail(Failure("own-equality", f"what=own-equality mode=raised{cause(u, v)} a={u!r} b={v!r}", dict(kind="own-eq", mode="pair", a=i, b=j), expected="a truth value",
+                           actual=outcome.describe(r)[:200], functions=[f"{type(u).__name__}.__eq__"]))
+            continue
+        e1, e2, ne = (bool(t) for t in r[1])
+        eqs[i, j] = e1
+        bad = []
+        if e1 != e2:
+            bad.append("asymmetric")
+        if ne != (not e1):
+            bad.append("!= is not the negation")
+        if e1:
+            if type(u) is not type(v):
+                bad.append("equal across classes")
+            hh = outcome.run(lambda: (hash(u) == hash(v), v in {u: 1}, v in {u}))
+            if hh != ("val", (True, True, True)):
+                bad.append("equal but hash/key differs")
+        if bad:
+            b.fail(Failure("own-equality", f"what=own-equality mode=pair{cause(u, v)} wrong={'; '.join(bad)} a={u!r} b={v!r}", dict(kind="own-eq", mode="pair", a=i, b=j),
+                           expected="symmetric, same class, same hash", actual=outcome.describe(r)[:200], functions=[f"{type(u).__name__}.__eq__", f"{type(u).__name__}.__hash__"]))
+    idx = [i for i, _ in objs]
+    for i, j, k in itertools.permutations(idx, 3):
+        b.case(("triple", i, j, k), nontrivial=False)
+        if eqs.get((i, j)) and eqs.get((j, k)) and not eqs.get((i, k)):
+            d = dict(objs)
+            c = cause(d[i], d[j]) or cause(d[j], d[k])
+            b.fail(Failure("own-equality", f"what=own-equality mode=transitivity{c} a={d[i]!r} b={d[j]!r} c={d[k]!r}", dict(kind="own-eq", mode="triple", a=i, b=j, c=k),
+                           expected="a == c", actual="a == b, b == c, a != c", functions=["__eq__"]))
+    return b
 
 
 def b_post_init(tier):
